@@ -842,6 +842,10 @@ def classify(c, impl):
     if c['op'] == 'reward':
         labs.append('reward:' + ('wild' if c['wild'] else 'structured'))
         labs.append('reward-objectives=%d' % len(c['steps'][0]['new']))
+        if any(st.get('sleep_ms') for st in c['steps']):
+            labs.append('reward:with-slow-operator-steps')
+        if 'panic' not in impl and any(x['duration'] != 0 for x in impl['search']):
+            labs.append('reward:nonzero-duration-observed')
     if c['op'] == 'minvar' and 'panic' not in impl:
         labs.append('minvar-fired=%s' % any(impl['fired']))
         exp = minvar_expect(c)
